@@ -2,8 +2,8 @@
 
 These are the functions the handler contracts of contracts/frontend.py use through their effect handlers (assumption D1).
 Here each of them is verified on its own: what it writes, under which name, what it refuses, and that nothing else on
-the disk changes.  D1 is thereby reduced to "the effect handler restates this contract" for every function below; the
-config.json functions (text mode + json) and delete_sid_folder (rmtree) stay trusted.
+the disk changes.  D1 is thereby reduced to "the effect handler restates this contract" for every function below; delete_sid_folder (rmtree; nothing in the repository calls it) stays outside; the config.json functions are verified with the
+configuration as an opaque value (the file receives json_bytes(config); reading yields json_parse(utf8_text(bytes))).
 """
 from pyvc.api import *
 from pyvc import files, paths, externals
@@ -98,3 +98,28 @@ contract(SFM + "read_service_meta", params=dict(sid=TStr), returns=SI,
 contract(SFM + "read_encrypted_database", params=dict(sid=TStr), returns=TBytes,
          raises={"FileNotFoundError": dict(when="sfile(sid, 'edb') not in fs", iff=True)},
          ensures=["result == fs[sfile(sid, 'edb')]"], no_runtime=True, props=P)
+
+
+# ---- config.json: written in text mode through json.dump; the configuration is an opaque value here and the file receives a
+# function of it (json_bytes).  What matters for C13: the file is (re)written whenever the directory exists -- an interrupted earlier
+# attempt is repaired by the retry -- and nothing else changes.
+json_bytes = specfn("json_bytes", [TBytes], TBytes, doc="the text json.dump produces for a configuration, as bytes (abstract)")
+json_bytes.decl = files.JSON_BYTES
+contract(SFM + "write_service_config", params=dict(sid=TStr, config=TBytes), requires=["implies(sdir(sid) in fs, sdir(sid) not in dirs)"],
+         ensures=["implies(sdir(sid) in old(dirs), fs == dput(old(fs), sfile(sid, 'config.json'), json_bytes(config)))",
+                  "implies(sdir(sid) not in old(dirs) and sdir(sid) not in old(fs), fs == old(fs))"] + DIRS_SAME,
+         raises={"FileNotFoundError": dict(when="sdir(sid) in old(fs)", iff=True)},
+         modifies_ghost=FGH, no_runtime=True, props=P)
+contract(CFM + "write_service_config", params=dict(sid=TStr, config=TBytes), requires=["cdir(sid) in dirs"],
+         ensures=["fs == dput(old(fs), cfile(sid, 'config.json'), json_bytes(config))"] + DIRS_SAME,
+         modifies_ghost=FGH, no_runtime=True, props=P)
+
+utf8_text = specfn("utf8_text", [TBytes], TStr, doc="the text a file's bytes decode to (abstract)")
+utf8_text.decl = paths.UTF8_TEXT
+json_parse = specfn("json_parse", [TStr], TBytes, doc="the value json.loads builds from a text (an opaque token)")
+json_parse.decl = paths.JSON_PARSE
+for FM_, pf_ in ((SFM, "sfile"), (CFM, "cfile")):
+    contract(FM_ + "read_service_config", params=dict(sid=TStr), returns=TBytes,
+             raises={"FileNotFoundError": dict(when="%s(sid, 'config.json') not in fs" % pf_, iff=True),
+                     "UnicodeDecodeError": "True", "JSONDecodeError": "True"},
+             ensures=["result == json_parse(utf8_text(fs[%s(sid, 'config.json')]))" % pf_], no_runtime=True, props=P)
